@@ -122,7 +122,7 @@ func genC10(t *rapid.T) *Case {
 			}
 		}
 		return op
-	}), 1, 30).Draw(t, "ops")
+	}), minHistory(t, 30), 30).Draw(t, "ops")
 	c.Ops = ops
 	return c
 }
